@@ -7,13 +7,15 @@ Rec == ndJsonDeserialize(IOEnv.TRACE)
 VARIABLES l, bad
 vars == <<l, bad>>
 I(s, inc) == INSTANCE Introspection WITH S <- s, Inc <- inc
+\* every element is <<tag, tuple of strings>> (TLC cannot hold strings and tuples, or tuples of different shapes of
+\* element, in one set: it raises an evaluation error instead of answering FALSE)
 Fails(r) ==
-  IF r.crash THEN {"C24-crash"}
-  ELSE (IF r.errors = 0 /\ r.dataKeys = <<"__schema">> THEN {} ELSE {"C24-errors-or-concrete-field-not-skipped"})
-       \cup (IF ~r.hasData THEN {"C24-no-data"}
+  IF r.crash THEN {<<"C24", <<"crash", "-">>>>}
+  ELSE (IF r.errors = 0 /\ r.dataKeys = <<"__schema">> THEN {} ELSE {<<"C24", <<"errors-or-concrete-field-not-skipped", "-">>>>})
+       \cup (IF ~r.hasData THEN {<<"C24", <<"no-data", "-">>>>}
              ELSE {<<"C24", p>> : p \in I(r.schema, TRUE)!Problems(r.resp)}
                   \* the same query without includeDeprecated (default false): deprecated entries are filtered out
-                  \cup {<<"C24", <<"without-includeDeprecated", p>>>> : p \in I(r.schema, FALSE)!Problems(r.respNoDep)})
+                  \cup {<<"C24-nodep", p>> : p \in I(r.schema, FALSE)!Problems(r.respNoDep)})
 Init == l = 1 /\ bad = {}
 Next == /\ l <= Len(Rec) /\ l' = l + 1
         /\ bad' = IF Fails(Rec[l]) = {} THEN bad ELSE bad \cup {<<l, Fails(Rec[l])>>}
